@@ -295,6 +295,8 @@ def obligations(tier):
     for seps in seps_list:
         for nrows, dup in ((1, False), (2, False), (2, True)) if tier == "quick" else ((1, False), (2, False), (2, True), (3, False), (3, True)):
             for res_len, atom_len in ((3, 2), (4, 4)) if tier == "quick" else ((1, 1), (3, 2), (3, 4), (4, 3), (4, 4), (6, 4)):
+                if nrows == 3 and ((res_len, atom_len) != (3, 2) or len(seps) > 1):
+                    continue  # three symbolic rows multiply name-partition forks: one shape only
                 for with_group in (False, True):
                     if tier == "quick" and with_group and (nrows, res_len) != (2, 3):
                         continue
